@@ -268,6 +268,7 @@ func TestC02Stalled(t *testing.T) {
 			}
 		}
 	}
+	paths = append(paths, c02stall{600, 5600, 0}) // more than ten segments behind
 	RunPaths(t, "C02", "C02/stalled-subscriber", "TestC02Stalled", len(paths), vk.Pick(8*time.Minute, 30*time.Minute),
 		func(t *testing.T, i int, rep *vk.Report) {
 			p := paths[i]
